@@ -22,6 +22,7 @@ package PKGNAME
 import (
 	"encoding/binary"
 	"fmt"
+	"log"
 	"net"
 	"os"
 	"path/filepath"
@@ -772,7 +773,19 @@ func vFreeUDPPort() int {
 	return port
 }
 
+// vSlowLog discards the log but takes its time over Stop's "was called" line: writing a log line is a real
+// suspension point (I/O), and a delay there widens whatever window exists around it.
+type vSlowLog struct{}
+
+func (vSlowLog) Write(b []byte) (int, error) {
+	if strings.Contains(string(b), "Stop() was called") {
+		time.Sleep(300 * time.Microsecond)
+	}
+	return len(b), nil
+}
+
 func vLifeSetup(tier string) {
+	log.SetOutput(vSlowLog{})
 	go func() {
 		for {
 			select {
